@@ -215,7 +215,7 @@ class C20(Prop):
 
         class D(L[4]):
             async def on_setup(self, data_encoding, metadata_encoding, payload):
-                calls.append('setup')
+                calls.append('setup:data=%s:metadata=%s:%s' % (bytes(data_encoding).decode(), bytes(metadata_encoding).decode(), bytes(payload.data or b'').hex()))
 
             async def on_metadata_push(self, metadata):
                 calls.append('mp:' + (metadata.metadata or b'').hex())
@@ -427,7 +427,7 @@ class C20(Prop):
             if want not in obs['wire']:
                 add('one-way-request-not-sent', str(obs['wire']))
         elif k == 'honeway':
-            want = {'setup': 'setup', 'mp': 'mp:07', 'fnf': 'fnf:08'}[case['op']]
+            want = {'setup': 'setup:data=c/d:metadata=a/b:01', 'mp': 'mp:07', 'fnf': 'fnf:08'}[case['op']]
             if obs['calls'] != [want]:
                 add('delegate-not-reached:' + case['op'], 'the %s reached the delegate as %s (wire: %s)' % (case['op'], obs['calls'], obs['wire'][:2]))
             if any(w.startswith('ERROR') for w in obs['wire']):
